@@ -124,3 +124,104 @@ Proof.
   destruct H as (_ & _ & _ & _ & Hbz & Hwz & _ & _ & (f & Hf & V1 & V2 & V3 & V4 & V5 & V6 & _ & _ & _ & _ & V11 & V12)).
   exists f. repeat (split; [assumption|]). assumption.
 Qed.
+
+(** ** Records whose data is one name (NS, CNAME, PTR): the builder converts the target text like the owner text *)
+Definition name_rec (ls : list bytes) (t c ttl : N) (ls2 : list bytes) : rec_view * rd_view :=
+  ({| rv_off := 0; rv_labels := ls; rv_name_end := length (wire_of_labels ls); rv_type := t; rv_class := c; rv_ttl := ttl;
+      rv_rdlen := length (wire_of_labels ls2) |}, RdName ls2).
+
+Lemma name_rec_bytes ls t c ttl ls2 :
+  plain_record (name_rec ls t c ttl ls2) =
+  wire_of_labels ls ++ be16_bytes t ++ be16_bytes c ++ be32_bytes ttl ++ be16_bytes (N.of_nat (length (wire_of_labels ls2))) ++ wire_of_labels ls2.
+Proof. reflexivity. Qed.
+
+Theorem name_rec_ok ls t c ttl ls2 :
+  Forall label_ok ls -> length (wire_of_labels ls) <= 255 -> bytes_ok (wire_of_labels ls) ->
+  Forall label_ok ls2 -> length (wire_of_labels ls2) <= 255 -> bytes_ok (wire_of_labels ls2) ->
+  (c < 65536)%N -> (ttl < 4294967296)%N -> is_name_type t = true ->
+  plain_rr_ok (name_rec ls t c ttl ls2).
+Proof.
+  intros Hls H255 Hbw Hls2 H255b Hbw2 Hc Httl Hnt.
+  assert (Ht : (t < 65536)%N) by (unfold is_name_type, TYPE_NS, TYPE_CNAME, TYPE_PTR in Hnt; lia).
+  assert (Hopt : (t =? TYPE_OPT)%N = false) by (unfold is_name_type, TYPE_NS, TYPE_CNAME, TYPE_PTR, TYPE_OPT in *; lia).
+  set (W := wire_of_labels ls) in *. set (D := wire_of_labels ls2) in *.
+  assert (HD1 : 1 <= length D) by (unfold D, wire_of_labels; rewrite app_length; cbn [length]; lia).
+  assert (Hlen : (N.of_nat (length D) < 65536)%N) by lia.
+  split; [unfold is_opt, name_rec; cbn [fst rv_type]; exact Hopt|].
+  split.
+  { rewrite name_rec_bytes. fold W D. repeat (apply bytes_ok_app; [first [assumption|apply bytes_ok_be16|apply bytes_ok_be32]|]). exact Hbw2. }
+  intros sec seen pre post. cbv zeta. rewrite name_rec_bytes. fold W D. cbn [fst snd].
+  set (q := pre ++ (W ++ be16_bytes t ++ be16_bytes c ++ be32_bytes ttl ++ be16_bytes (N.of_nat (length D)) ++ D) ++ post).
+  set (ne := length pre + length W).
+  assert (Hq : q = pre ++ W ++ (be16_bytes t ++ be16_bytes c ++ be32_bytes ttl ++ be16_bytes (N.of_nat (length D)) ++ D ++ post))
+    by (unfold q; rewrite <- !app_assoc; reflexivity).
+  assert (Hcn : cname_l q (length pre) ls ne) by (rewrite Hq; apply cname_l_mid; assumption).
+  assert (U_t : u16_at q ne t).
+  { replace q with ((pre ++ W) ++ be16_bytes t ++ (be16_bytes c ++ be32_bytes ttl ++ be16_bytes (N.of_nat (length D)) ++ D ++ post))
+      by (unfold q; rewrite <- !app_assoc; reflexivity).
+    replace ne with (length (pre ++ W)) by (rewrite app_length; reflexivity). apply u16_at_mid; exact Ht. }
+  assert (U_c : u16_at q (ne + 2) c).
+  { replace q with ((pre ++ W ++ be16_bytes t) ++ be16_bytes c ++ (be32_bytes ttl ++ be16_bytes (N.of_nat (length D)) ++ D ++ post))
+      by (unfold q; rewrite <- !app_assoc; reflexivity).
+    replace (ne + 2) with (length (pre ++ W ++ be16_bytes t)) by (rewrite !app_length; cbn [length be16_bytes]; unfold ne; lia). apply u16_at_mid; exact Hc. }
+  assert (U_ttl : u32_at q (ne + 4) ttl).
+  { replace q with ((pre ++ W ++ be16_bytes t ++ be16_bytes c) ++ be32_bytes ttl ++ (be16_bytes (N.of_nat (length D)) ++ D ++ post))
+      by (unfold q; rewrite <- !app_assoc; reflexivity).
+    replace (ne + 4) with (length (pre ++ W ++ be16_bytes t ++ be16_bytes c)) by (rewrite !app_length; cbn [length be16_bytes]; unfold ne; lia). apply u32_at_mid; exact Httl. }
+  assert (U_l : u16_at q (ne + 8) (N.of_nat (length D))).
+  { replace q with ((pre ++ W ++ be16_bytes t ++ be16_bytes c ++ be32_bytes ttl) ++ be16_bytes (N.of_nat (length D)) ++ (D ++ post))
+      by (unfold q; rewrite <- !app_assoc; reflexivity).
+    replace (ne + 8) with (length (pre ++ W ++ be16_bytes t ++ be16_bytes c ++ be32_bytes ttl)) by (rewrite !app_length; cbn [length be16_bytes be32_bytes]; unfold ne; lia).
+    apply u16_at_mid; exact Hlen. }
+  assert (Hdn : cname_l q (ne + 10) ls2 (ne + 10 + length D)).
+  { replace q with ((pre ++ W ++ be16_bytes t ++ be16_bytes c ++ be32_bytes ttl ++ be16_bytes (N.of_nat (length D))) ++ D ++ post)
+      by (unfold q; rewrite <- !app_assoc; reflexivity).
+    replace (ne + 10) with (length (pre ++ W ++ be16_bytes t ++ be16_bytes c ++ be32_bytes ttl ++ be16_bytes (N.of_nat (length D))))
+      by (rewrite !app_length; cbn [length be16_bytes be32_bytes]; unfold ne; lia).
+    apply cname_l_mid; assumption. }
+  assert (Lq : length q = ne + 10 + length D + length post).
+  { unfold q, ne. rewrite !app_length. cbn [length be16_bytes be32_bytes]. lia. }
+  assert (Le : length pre + length (W ++ be16_bytes t ++ be16_bytes c ++ be32_bytes ttl ++ be16_bytes (N.of_nat (length D)) ++ D) = ne + 10 + length D).
+  { unfold ne. rewrite !app_length. cbn [length be16_bytes be32_bytes]. lia. }
+  rewrite Le.
+  assert (HtA : t <> TYPE_A /\ t <> TYPE_AAAA) by (unfold is_name_type, TYPE_NS, TYPE_CNAME, TYPE_PTR, TYPE_A, TYPE_AAAA in *; lia).
+  split.
+  { exists ne, t, (N.of_nat (length D)). split; [exists ls; exact Hcn|]. split; [lia|]. split; [exact U_t|]. split; [exact U_l|].
+    rewrite Nat2N.id. split; [reflexivity|]. split; [lia|]. rewrite Hopt. split; [reflexivity|].
+    unfold rdata_wf. rewrite Hnt. split; [exact HD1|exists ls2; exact Hdn]. }
+  split.
+  { unfold record_at, rv_at, name_rec. cbn [fst snd rv_off rv_labels rv_name_end rv_type rv_class rv_ttl rv_rdlen plain_rdata]. fold W D. fold ne.
+    split; [exact Hcn|]. split; [exact U_t|]. split; [exact U_c|]. split; [exact U_ttl|]. split; [exact U_l|].
+    split; [reflexivity|]. split; [lia|]. split; intros E; [destruct HtA as [A _]|destruct HtA as [_ A]]; contradiction. }
+  unfold rdata_at, rv_at, name_rec. cbn [fst snd rv_off rv_labels rv_name_end rv_type rv_class rv_ttl rv_rdlen plain_rdata]. fold W D. fold ne.
+  split; [exact Hnt|exact Hdn].
+Qed.
+
+Theorem build_name_rr_is_plain_record : forall t name ttl target rr,
+  build_name_rr t name ttl target = Ok rr -> is_name_type t = true -> (ttl < 4294967296)%N ->
+  exists ls ls2, Forall label_ok ls /\ Forall label_ok ls2 /\
+    (name = dotted ls \/ name = dots ls \/ (name = [46%N] /\ ls = [])) /\
+    (target = dotted ls2 \/ target = dots ls2 \/ (target = [46%N] /\ ls2 = [])) /\
+    rr = plain_record (name_rec ls t CLASS_IN ttl ls2) /\ plain_rr_ok (name_rec ls t CLASS_IN ttl ls2).
+Proof.
+  intros t name ttl target rr H Hnt Httl. unfold build_name_rr, raw_name_from_str in H.
+  destruct (copy_raw_name_from_str [] target None) as [rd| |] eqn:Er; cbn [bind] in H; try discriminate.
+  unfold rr_new in H. destruct (65535 <? N.of_nat (length rd))%N eqn:El; [discriminate|].
+  destruct (copy_raw_name_from_str [] name None) as [pk| |] eqn:Ew; cbn [bind] in H; try discriminate. inversion H; subst rr. clear H.
+  assert (Hconv : forall txt w, copy_raw_name_from_str [] txt None = Ok w ->
+            exists l, Forall label_ok l /\ w = wire_of_labels l /\ length (wire_of_labels l) <= 253 /\ bytes_ok (wire_of_labels l) /\
+                      (txt = dotted l \/ txt = dots l \/ (txt = [46%N] /\ l = []))).
+  { intros txt w Hw. destruct (from_str_sound [] txt None w Hw) as (l & Htl & Hcase).
+    assert (Hp : Forall label_ok l) by (eapply Forall_impl; [|exact Htl]; intros x Hx; apply tlabel_label_ok; exact Hx).
+    exists l. split; [exact Hp|].
+    assert (Hb : bytes_ok (wire_of_labels l)).
+    { apply bytes_ok_wire; [exact Hp|]. eapply Forall_impl; [|exact Htl]. intros x (_ & _ & Hok). unfold bytes_ok.
+      clear -Hok. induction x as [|c0 x IH]; [constructor|]. cbn [forallb] in Hok. apply andb_true_iff in Hok. destruct Hok as [Hc0 Hl0].
+      constructor; [unfold text_char_ok in Hc0; lia|exact (IH Hl0)]. }
+    destruct Hcase as [(Hne & Hn & Hw1 & Hl)|(Hn & Hw1 & Hl)]; cbn [app] in Hw1.
+    - cbn [zone_or_root] in Hw1, Hl. unfold wire_of_labels. auto 6.
+    - split; [exact Hw1|]. split; [exact Hl|]. split; [exact Hb|]. destruct Hn as [Hn|Hn]; auto. }
+  destruct (Hconv name pk Ew) as (ls & Hp & -> & Hl & Hb & Hn). destruct (Hconv target rd Er) as (ls2 & Hp2 & -> & Hl2 & Hb2 & Hn2).
+  exists ls, ls2. split; [exact Hp|]. split; [exact Hp2|]. split; [exact Hn|]. split; [exact Hn2|]. split; [rewrite name_rec_bytes; reflexivity|].
+  apply name_rec_ok; try assumption; try lia. unfold CLASS_IN; lia.
+Qed.
